@@ -41,7 +41,11 @@ class Unsupported(AnalysisError):
 class Eval(object):
     """Evaluates split_lines for one case: keep_ends in {True, False}, E = data.endswith(newline)."""
 
-    def __init__(self, fi, keep_ends, E, nl_is_lf):
+    def __init__(self, fi, keep_ends, E, nl_is_lf, count='other'):
+        # count: how many newlines the data holds - 'none', 'one-at-end' (exactly one, and it ends the data) or
+        # 'other' (any other number/position; E then says whether the data ends with one)
+        self.count = count
+        self.flags = []
         self.fi = fi
         a = fi.node.args
         names = [x.arg for x in a.args]
@@ -70,6 +74,37 @@ class Eval(object):
         if isinstance(e, ast.Call) and isinstance(e.func, ast.Attribute) and e.func.attr == 'endswith' \
                 and self.val(e.func.value) == 'DATA' and len(e.args) == 1 and self.val(e.args[0]) == 'NL':
             return self.E
+        if isinstance(e, ast.Compare) and len(e.ops) == 1 and isinstance(e.ops[0], (ast.In, ast.NotIn)):
+            l, r = self.val(e.left), self.val(e.comparators[0])
+            if l == 'NL' and r == 'DATA':
+                res = self.count != 'none'
+                return res if isinstance(e.ops[0], ast.In) else not res
+        if isinstance(e, ast.Compare) and len(e.ops) == 1:
+            l, r = self.val(e.left), self.val(e.comparators[0])
+            opn = type(e.ops[0]).__name__
+            if r in ('FIND', 'COUNT', 'FIND+len(NL)') and l not in ('FIND', 'COUNT', 'FIND+len(NL)'):
+                l, r = r, l
+                opn = {'Lt': 'Gt', 'Gt': 'Lt', 'LtE': 'GtE', 'GtE': 'LtE'}.get(opn, opn)
+            res = None
+            if l == 'FIND' and isinstance(r, int) and not isinstance(r, bool):
+                # position of the first newline: -1 exactly when there is none, otherwise >= 0
+                found = self.count != 'none'
+                if (opn, r) in (('Eq', -1), ('Lt', 0), ('LtE', -1)):
+                    res = not found
+                elif (opn, r) in (('NotEq', -1), ('GtE', 0), ('Gt', -1)):
+                    res = found
+            if l == 'COUNT' and isinstance(r, int) and not isinstance(r, bool):
+                zero = self.count == 'none'
+                if (opn, r) in (('Eq', 0), ('Lt', 1), ('LtE', 0)):
+                    res = zero
+                elif (opn, r) in (('NotEq', 0), ('GtE', 1), ('Gt', 0)):
+                    res = not zero
+            if l == 'FIND+len(NL)' and r == 'len(DATA)' and opn in ('Eq', 'NotEq'):
+                # the first newline ends the data: it is the only one (newlines have no proper border)
+                res = self.count == 'one-at-end'
+                res = res if opn == 'Eq' else not res
+            if res is not None:
+                return res
         if isinstance(e, ast.Compare) and len(e.ops) == 1 and isinstance(e.ops[0], (ast.Eq, ast.NotEq)):
             l, r = self.val(e.left), self.val(e.comparators[0])
             if {l, r} & {'NL'} and any(isinstance(x, bytes) for x in (l, r)):
@@ -87,6 +122,9 @@ class Eval(object):
     def val(self, e):
         if isinstance(e, ast.Constant):
             return e.value
+        if isinstance(e, ast.UnaryOp) and isinstance(e.op, ast.USub) and isinstance(e.operand, ast.Constant) \
+                and isinstance(e.operand.value, int) and not isinstance(e.operand.value, bool):
+            return -e.operand.value
         if isinstance(e, ast.Name):
             if e.id in self.env:
                 return self.env[e.id]
@@ -101,8 +139,32 @@ class Eval(object):
                 return l
             if m == 'copy' and isinstance(recv, SymList):
                 return recv.copy()
+            if m in ('find', 'index') and recv == 'DATA' and len(e.args) == 1 and self.val(e.args[0]) == 'NL':
+                return 'FIND'
+            if m == 'count' and recv == 'DATA' and len(e.args) == 1 and self.val(e.args[0]) == 'NL':
+                return 'COUNT'
         if isinstance(e, ast.Call) and isinstance(e.func, ast.Name) and e.func.id == 'len' and self.val(e.args[0]) == 'NL':
             return 'len(NL)'
+        if isinstance(e, ast.Call) and isinstance(e.func, ast.Name) and e.func.id == 'len' and self.val(e.args[0]) == 'DATA':
+            return 'len(DATA)'
+        if isinstance(e, ast.BinOp) and isinstance(e.op, ast.Add):
+            l, r = self.val(e.left), self.val(e.right)
+            if {l, r} == {'FIND', 'len(NL)'}:
+                return 'FIND+len(NL)'
+            if isinstance(l, (bytes, str)) and r == 'NL' and l in (b'%s', '%s'):
+                return 'TEMPLATE(%s NL)'
+        if isinstance(e, ast.List) and len(e.elts) == 1 and self.val(e.elts[0]) == 'DATA':
+            # the data as the only line
+            if self.count == 'none':
+                return SymList('ANY', True, 'P', 'split')          # no newline: the data is the one (unterminated) piece
+            if self.count == 'one-at-end':
+                out = SymList('P+NL', False, 'P', 'split')          # one newline ending the data: the data is piece+newline
+                out.single = True
+                return out
+            out = SymList('LOSSY', False, 'P', 'split')
+            out.wrong_count = 'the whole data is returned as one line although it holds %s' % (
+                'several lines' if self.E else 'a newline before its last line')
+            return out
         if isinstance(e, ast.Call) and isinstance(e.func, ast.Name) and e.func.id == 'list':
             v = self.val(e.args[0])
             if isinstance(v, SymList):
@@ -145,6 +207,8 @@ class Eval(object):
         """Form of a comprehension element expression given the form of the source element."""
         if isinstance(elt, ast.Name) and elt.id == var:
             return cur
+        if cur == 'ANY' and not (isinstance(elt, ast.BinOp) and isinstance(elt.op, ast.Mod)):
+            return 'ANY'          # there are no leading elements in this case
         plus_nl = False
         if isinstance(elt, ast.BinOp) and isinstance(elt.op, ast.Add) and isinstance(elt.left, ast.Name) and elt.left.id == var \
                 and self.val(elt.right) == 'NL':
@@ -153,7 +217,14 @@ class Eval(object):
                 and elt.left.value in (b'%s%s', '%s%s') and isinstance(elt.right, ast.Tuple) and len(elt.right.elts) == 2 \
                 and isinstance(elt.right.elts[0], ast.Name) and elt.right.elts[0].id == var and self.val(elt.right.elts[1]) == 'NL':
             plus_nl = True
+        if isinstance(elt, ast.BinOp) and isinstance(elt.op, ast.Mod) and isinstance(elt.right, ast.Name) and elt.right.id == var \
+                and not isinstance(elt.left, ast.Constant) and self.val(elt.left) == 'TEMPLATE(%s NL)':
+            self.flags.append('the newline is made part of a %-format template (' + norm(elt) + '): a newline that contains the byte 0x25 '
+                              '- LF is 0x25 in every EBCDIC codec (cp037, cp500, cp1140, ...) - is read as a conversion and formatting fails')
+            plus_nl = True
         if plus_nl:
+            if cur == 'ANY':
+                return 'ANY'
             return 'P+NL' if cur == 'P' else 'LOSSY'
         # elt[:-len(NL)]: removes exactly one newline from a terminated element
         if isinstance(elt, ast.Subscript) and isinstance(elt.value, ast.Name) and elt.value.id == var and isinstance(elt.slice, ast.Slice) \
@@ -252,16 +323,26 @@ def run(P, rep, tier):
     r2 = rep.rule('C16-R2', 'number of lines = number of newlines (+1 if the data does not end with one)', reference=8)
     r3 = rep.rule('C16-R3', 'without ends = kept-ends result with one trailing newline removed from each terminated line', reference=4)
     r4 = rep.rule('C16-R4', 'lines are obtained by splitting on exactly the given newline', reference=8)
-    for keep in (True, False):
-        for E in (True, False):
-            for lf in (True, False):
-                case = 'keep_ends=%s, data %s with the newline%s' % (keep, 'ends' if E else 'does not end', ', newline == LF' if lf else '')
-                ev = Eval(f, keep, E, lf)
+    r5 = rep.rule('C16-R5', 'the newline is data, never part of a %-format template', reference=1)
+    flagged = set()
+    cases = [(keep, cnt, E, lf) for keep in (True, False) for cnt, E in (('other', True), ('other', False), ('none', False), ('one-at-end', True))
+             for lf in (True, False)]
+    for keep, cnt, E, lf in cases:
+        if True:
+            if True:
+                case = 'keep_ends=%s, data %s%s' % (keep, {'other': 'ends with the newline (and holds more than one)' if E else 'holds newlines but does not end with one',
+                                                           'none': 'holds no newline', 'one-at-end': 'holds one newline, at its end'}[cnt],
+                                                    ', newline == LF' if lf else '')
+                ev = Eval(f, keep, E, lf, cnt)
                 try:
                     ev.run(f.node.body)
                     raise Unsupported('split_lines falls off its end')
                 except Stop as st:
                     res = st.value
+                for fl in ev.flags:
+                    if fl not in flagged:
+                        flagged.add(fl)
+                        rep.violation(r5, 'newline-in-template', f.loc(), 'split_lines (%s): %s' % (case, fl), path=[f.short])
                 if not isinstance(res, SymList):
                     raise Unsupported('split_lines returns %r' % (res,))
                 if res.source != 'split':
@@ -271,6 +352,9 @@ def run(P, rep, tier):
                                   'newlines, and indentation ends up in the middle of lines' % (case, res.source), path=[f.short])
                     continue
                 rep.ok(r4, case)
+                if getattr(res, 'wrong_count', None):
+                    rep.violation(r2, 'line-count:%s:%s:whole' % (keep, E), f.loc(), 'split_lines (%s): %s' % (case, res.wrong_count), path=[f.short])
+                    continue
                 want_last = not E
                 if res.has_last != want_last:
                     rep.violation(r2, 'line-count:%s:%s' % (keep, E), f.loc(),
@@ -279,10 +363,10 @@ def run(P, rep, tier):
                 else:
                     rep.ok(r2, case, repr(res))
                 if keep:
-                    ok = res.prefix == 'P+NL' and (not res.has_last or res.last == 'P')
+                    ok = res.prefix in ('P+NL', 'ANY') and (not res.has_last or res.last == 'P')
                     if not ok:
                         what = []
-                        if res.prefix != 'P+NL':
+                        if res.prefix not in ('P+NL', 'ANY'):
                             what.append('terminated lines have the form %s instead of piece+newline' % res.prefix)
                         if res.has_last and res.last != 'P':
                             what.append('the unterminated last line has the form %s: a newline the data does not contain is '
@@ -292,11 +376,13 @@ def run(P, rep, tier):
                     else:
                         rep.ok(r1, case, repr(res))
                 else:
-                    ok = res.prefix == 'P' and (not res.has_last or res.last == 'P')
+                    ok = res.prefix in ('P', 'ANY') and (not res.has_last or res.last == 'P')
                     if not ok:
                         rep.violation(r3, 'no-ends-form:%s' % E, f.loc(), 'split_lines (%s) returns lines of the form %s / %s instead of the '
                                       'bare pieces' % (case, res.prefix, res.last), path=[f.short])
                     else:
                         rep.ok(r3, case, repr(res))
+    if not flagged:
+        rep.ok(r5, f.short, 'no template is built from the newline')
     if not rep.violations:
-        rep.floor(r2, 4)
+        rep.floor(r2, 8)
